@@ -71,6 +71,23 @@ def gen_chain_cases(chk):
         d = rng.randint(5, 8)
         pl = [rnd_offset(rng) + rng.choice(ORIENT8) for _ in range(d)]
         add("deep_5_8", pl, GRID[::5] + EXTREME_PTS)
+    # the depths covered by the float-level theorems (C12_right_angle_chain_no_drift_depth20 / _depth1024):
+    # depth 9..20 with locations up to 2^40, depth up to 1024 with locations up to 2^28, every table angle
+    def big_off(rng, b):
+        c = rng.random()
+        if c < 0.4:
+            return (rng.choice([-b, b]), rng.choice([-b, b]))
+        if c < 0.8:
+            return (rng.randint(-b, b), rng.randint(-b, b))
+        return rnd_offset(rng)
+    for _ in range(12 if quick else 300):
+        d = rng.randint(9, 20)
+        pl = [big_off(rng, 2**40) + (rng.random() < 0.5, rng.choice(TABLE_ANGLES + [None])) for _ in range(d)]
+        add("deep_9_20_loc_2p40", pl, GRID[::20] + EXTREME_PTS[:3])
+    for k in range(3 if quick else 40):
+        d = 1024 if k == 0 else rng.randint(21, 128 if quick else 1024)
+        pl = [big_off(rng, 2**28) + (rng.random() < 0.5, rng.choice(TABLE_ANGLES + [None])) for _ in range(d)]
+        add("deep_21_1024_loc_2p28", pl, [GRID[7], EXTREME_PTS[0]] if quick else GRID[::40] + EXTREME_PTS[:3])
     # beyond 2^53: outside the property's domain (doubles cannot hold the coordinates); model comparison only
     for (lx, ly) in OFFSETS_BEYOND:
         for (r, a) in ORIENT8[::3]:
@@ -366,7 +383,7 @@ def nontrivial_key(c):
 def run(chk, replay=None):
     import time as _t
     _t0 = _t.time()
-    chk.proof_leg(["Geom/TransformCheck.vo"], "Properties/C12.v", ["Geom/Transform_proofs.v"], "Properties.C12")
+    chk.proof_leg(["Geom/TransformCheck.vo"], "Properties/C12.v", ["Geom/Transform_proofs.v", "Geom/TransformFloat_proofs.v"], "Properties.C12")
     chk.assumptions += [
         "libm sin/cos are not modelled: the ring-level theorems hold for EVERY pair (c, s); the float-level theorem is about the eight bit patterns in coq/Gen/LibmGen.v, regenerated from the implementation on every run",
         "float `*`, `+` round to nearest even with no excess precision and no fused multiply-add (Rust on x86-64/aarch64); the sign of zero is not modelled (it cannot reach an integer coordinate); infinities and NaN are outside the model",
@@ -386,7 +403,7 @@ def run(chk, replay=None):
             cs, d = g(chk)
             cases += cs; dist.update(d)
     chk.cov["input_distribution"] = dist
-    chk.cov["rule"] = ("placement chains of depth 1-4 (and some 5-8) over the eight right-angle orientations and their other spellings (-90, 360, no angle) x offsets "
+    chk.cov["rule"] = ("placement chains of depth 1-4 (and some 5-8, 9-20 with locations up to 2^40, 21-1024 with locations up to 2^28) over the eight right-angle orientations and their other spellings (-90, 360, no angle) x offsets "
                        "(small, negative, up to 2^31, 2^40, beyond 2^53) x every point of the 9x9 grid [-4,4]^2 plus extreme points; hierarchies of depth 1-4 built through the public API "
                        "(shared cells, rect/polygon/path elements, nets/layers/purposes); general angles against a decimal reference. "
                        "Non-trivial: some placement is not the identity / some cell has an instance; distinct by full input")
